@@ -4,6 +4,7 @@ Property theorems only; the model is IpcHub/Model/RtspSession.lean (+ RtspTransp
 the specification IpcHub/Spec/RtspAutomaton.lean, helper lemmas IpcHub/Lemmas/RtspSession*.lean.
 -/
 import IpcHub.Lemmas.RtspSession
+import IpcHub.Lemmas.RtspOrder
 namespace IpcHub.Props.C12
 open IpcHub.Rtsp IpcHub.RtspSpec
 
@@ -67,7 +68,9 @@ theorem c12_source_ladders :
       ("!s.checkPermission(auth.PullRight)", "StatusForbidden"), ("st == nil", "StatusNotFound"), ("ma == nil", "StatusUnsupportedTransport")] ∧
     IpcHub.Gen.wspOnSetupLadder = [("vPath == \"\"", "StatusInternalServerError"), ("err != nil", "StatusInvalidParameter"),
       ("rtsp.PlaySession != s.transport.Mode", "StatusInvalidParameter"), ("s.transport.Type != rtsp.RTPTCPUnicast", "StatusUnsupportedTransport")] ∧
-    IpcHub.Gen.wspOnPlayLadder = [("stream == nil", "StatusNotFound")] := by
+    IpcHub.Gen.wspOnPlayLadder = [("stream == nil", "StatusNotFound"), ("!s.checkPermission()", "StatusForbidden")] ∧
+    IpcHub.Gen.wspOnDescribeLadder = [("stream == nil", "StatusNotFound"), ("!s.checkPermission()", "StatusForbidden"),
+      ("len(sdpRaw) == 0", "StatusNotFound"), ("err != nil", "StatusNotFound")] := by
   decide
 
 /-- Exactly one response per request, echoing its CSeq: for EVERY state of an open session,
@@ -83,6 +86,116 @@ theorem c12_one_response (s : Sess) (r : Req) (e : Env) (h : s.closed = false) :
 theorem c12_455_inert (cfg : Cfg) (s : Sess) (r : Req) (e : Env) (x : Resp)
     (hx : x ∈ respsOf (step cfg s r e).2) (h : x.code = 455) : (step cfg s r e).1 = s :=
   step_455_inert cfg s r e x hx h
+
+/-- The main theorem: EVERY dialogue of the model — any number of requests of any method with any
+    URL, Transport header, body, in any environment (registry contents, SDP parser results,
+    permission decisions, socket failures chosen adversarially per request), and hang-ups anywhere —
+    on plain RTSP and on ws-rtsp, is accepted by the reference automaton of the statement
+    (Spec/RtspAutomaton.lean): exactly one response per request with the CSeq echoed, the connection
+    usable after every request but TEARDOWN, a method that is not legal in the current phase refused
+    with 455, a 455 inert, DESCRIBE/ANNOUNCE/SETUP (and PLAY) never refused with 455 where they are
+    legal, success only along DESCRIBE → SETUP → PLAY and ANNOUNCE → SETUP → RECORD (a SETUP whose
+    `mode` parameter contradicts the direction is never accepted), a consumer attached exactly
+    while playing, a stream published exactly while recording, refusals inert, TEARDOWN and
+    disconnect release everything.  The only hypothesis: the SETUP path the URL library delivers
+    is not the empty string. -/
+theorem c12_model_accepted (ws : Bool) (wsPath : List Char) (ins : List Input) (hwf : ∀ i ∈ ins, i.wf) :
+    accepts .rtsp (trace genCfg (Sess.init ws wsPath) ins) = true := by
+  have h := (trace_mrun genCfg c12_source_facts.2.1 ins (Sess.init ws wsPath) (sinv_init ws wsPath) hwf).1
+  have h0 : mstateOf (Sess.init ws wsPath) = MState.init := by
+    cases ws <;> rfl
+  rw [h0] at h
+  simp [accepts, h]
+
+/-- Playing can only be reached through DESCRIBE then SETUP then PLAY: whenever the session is in
+    the playing state after a dialogue, the observed history contains a successful DESCRIBE, a later
+    successful SETUP and a later successful PLAY.  Likewise recording: ANNOUNCE, SETUP, RECORD. -/
+theorem c12_order (ws : Bool) (wsPath : List Char) (ins : List Input) (hwf : ∀ i ∈ ins, i.wf) :
+    let s := final genCfg (Sess.init ws wsPath) ins
+    let hist := history (trace genCfg (Sess.init ws wsPath) ins)
+    (s.closed = false → s.status = .playing →
+      [(Method.describe, 200), (Method.setup, 200), (Method.play, 200)].Sublist hist) ∧
+    (s.closed = false → s.status = .recording →
+      [(Method.announce, 200), (Method.setup, 200), (Method.record, 200)].Sublist hist) := by
+  intro s hist
+  have h := (trace_mrun genCfg c12_source_facts.2.1 ins (Sess.init ws wsPath) (sinv_init ws wsPath) hwf).1
+  have hn := mrun_need .rtsp _ _ _ [] h (by cases ws <;> simp [mstateOf, absPhase, Sess.init, need])
+  simp only [List.nil_append] at hn
+  constructor
+  · intro hc hs
+    have : (mstateOf s).phase = .playing := by simp [mstateOf, absPhase, hc, hs]
+    rw [show final genCfg (Sess.init ws wsPath) ins = s from rfl, this] at hn
+    exact hn
+  · intro hc hs
+    have : (mstateOf s).phase = .recording := by simp [mstateOf, absPhase, hc, hs]
+    rw [show final genCfg (Sess.init ws wsPath) ins = s from rfl, this] at hn
+    exact hn
+
+/-- No media before a successful PLAY, no stream before a successful RECORD, as a state invariant
+    of every reachable state: a consumer is held only in the playing state, a published stream only in
+    the recording state, and nothing is held once the connection is closed. -/
+theorem c12_resources_follow_state (ws : Bool) (wsPath : List Char) (ins : List Input) (hwf : ∀ i ∈ ins, i.wf) :
+    let s := final genCfg (Sess.init ws wsPath) ins
+    (s.role ≠ .none → s.closed = false ∧ s.status = .playing) ∧
+    (s.pusher = true → s.closed = false ∧ s.status = .recording) := by
+  intro s
+  have hi := (trace_mrun genCfg c12_source_facts.2.1 ins (Sess.init ws wsPath) (sinv_init ws wsPath) hwf).2
+  have hi : SInv s := hi
+  constructor
+  · intro hr
+    cases hc : s.closed with
+    | true => exact absurd (hi.closedClean hc).1 hr
+    | false =>
+      refine ⟨rfl, ?_⟩
+      cases hs : s.status with
+      | init => exact absurd (hi.initClean hc hs).1 hr
+      | ready => exact absurd (hi.ready hc hs).1 hr
+      | playing => rfl
+      | recording => exact absurd (hi.recording hc hs).1 hr
+  · intro hp
+    cases hc : s.closed with
+    | true => rw [(hi.closedClean hc).2] at hp; cases hp
+    | false =>
+      refine ⟨rfl, ?_⟩
+      cases hs : s.status with
+      | init => rw [(hi.initClean hc hs).2] at hp; cases hp
+      | ready => rw [(hi.ready hc hs).2.1] at hp; cases hp
+      | playing => rw [(hi.playing hc hs).2] at hp; cases hp
+      | recording => rfl
+
+/-- TEARDOWN or disconnect releases whatever the session held: in every state, after a TEARDOWN
+    request or a hang-up the session is closed, holds no consumer and no published stream, and the
+    events contain the release of each resource that was held. -/
+theorem c12_teardown_releases (s : Sess) (i : Input) (hopen : s.closed = false)
+    (hi : i = .hangup ∨ ∃ r e, i = .req r e ∧ r.method = .teardown) :
+    let out := stepInput genCfg s i
+    out.1.closed = true ∧ out.1.role = .none ∧ out.1.pusher = false ∧
+    (s.role ≠ .none → Effect.releaseConsumer ∈ effsOf out.2) ∧
+    (s.pusher = true → Effect.releaseStream ∈ effsOf out.2) ∧
+    Effect.closeConn ∈ effsOf out.2 := by
+  have key : ∀ evs : List Ev, evs = (finish s).2 ∨ (∃ x, evs = .resp x :: (finish s).2) →
+      (s.role ≠ .none → Effect.releaseConsumer ∈ effsOf evs) ∧
+      (s.pusher = true → Effect.releaseStream ∈ effsOf evs) ∧ Effect.closeConn ∈ effsOf evs := by
+    intro evs h
+    rcases h with h | ⟨x, h⟩ <;> subst h
+    · refine ⟨fun hr => ?_, fun hp => ?_, ?_⟩
+      · simp [finish, effsOf, hr]
+      · simp [finish, effsOf, hp]
+      · simp [finish, effsOf]
+    · refine ⟨fun hr => ?_, fun hp => ?_, ?_⟩
+      · simp [finish, effsOf, hr]
+      · simp [finish, effsOf, hp]
+      · simp [finish, effsOf]
+  rcases hi with hi | ⟨r, e, hi, hm⟩
+  · subst hi
+    have : stepInput genCfg s .hangup = finish s := by simp [stepInput, disconnect, hopen]
+    simp only [this]
+    exact ⟨rfl, rfl, rfl, key _ (Or.inl rfl)⟩
+  · subst hi
+    have : stepInput genCfg s (.req r e) = ((finish s).1, .resp (mkResp r) :: (finish s).2) := by
+      simp [stepInput, step, hopen, hm]
+    simp only [this]
+    exact ⟨rfl, rfl, rfl, key _ (Or.inr ⟨_, rfl⟩)⟩
 
 /-- Candidate 29 (fixed): with the old `onPlay` (the `status == statusPlaying` branch returns
     without writing) a PLAY on a playing session gets no response at all. -/
@@ -100,5 +213,19 @@ example : ∀ e : Env, respsOf (step genCfg (Sess.init false []) { (default : Re
     = [{ mkResp { (default : Req) with method := .play } with code := 455 }] := by
   intro e
   simp [step, Sess.init, genCfg, gateOfTable, IpcHub.Gen.rtspGate, statusName, gateRow, methodOfName, respsOf]
+
+/-- non-vacuity of `c12_model_accepted` / `c12_order`: a well-formed dialogue that reaches playing -/
+example :
+    let env : Env := { lookup := fun _ => some { sdp := 1, mc := none }, sdp := fun _ => { ok := true, medias := [(.video, "t=1".toList)] },
+                       urlNorm := fun _ => none, permPull := true, permPush := true, udpOk := true }
+    let rq (m : Method) (sp tr : String) : Input :=
+      .req { method := m, cseq := [], path := "/a".toList, setupPath := sp.toList, transport := tr.toList,
+             ctypeSdp := false, range := [], body := 0 } env
+    let ins := [rq .describe "rtsp://h:554/a" "", rq .setup "rtsp://h:554/a/t=1" "RTP/AVP/TCP;interleaved=0-1", rq .play "rtsp://h:554/a" ""]
+    (∀ i ∈ ins, i.wf) ∧ (final genCfg (Sess.init false []) ins).status = .playing := by
+  refine ⟨?_, by decide⟩
+  intro i hi
+  simp only [List.mem_cons, List.not_mem_nil, or_false] at hi
+  rcases hi with rfl | rfl | rfl <;> simp [Input.wf]
 
 end IpcHub.Props.C12
